@@ -196,13 +196,33 @@ func runCheck(o checkOpts) *checkResult {
 		Count int    `json:"counted_for_property"`
 	}
 	var fsums []fsum
+	type ownerRec struct {
+		key  string
+		fc   *FuncContract
+		mode Mode
+	}
+	ownerOf := map[string]ownerRec{}
+	var errOwner []string
 	genT0 := time.Now()
 	for _, k := range funcs {
 		fc := w.db.Funcs[k]
 		for _, m := range modesOf(fc) {
 			r := w.verifyFunction(k, fc, m)
+			owner := k + " [" + m.String() + "]"
+			if r.Err != nil && !strings.Contains(r.Err.Error(), "engine:") && w.hasInlinedHelpers(k) {
+				// the contract names points that are not in the function: before
+				// giving up, number the points of its inlined helpers in place
+				w.virtual = true
+				r2 := w.verifyFunction(k, fc, m)
+				w.virtual = false
+				if r2.Err == nil {
+					r = r2
+					warns = appendUniq(warns, owner+": verified with the program points of its inlined helpers numbered in place (a helper without a contract carries clauses of this function)")
+				}
+			}
 			if r.Err != nil {
 				errs = append(errs, fmt.Sprintf("%s [%s]: %v", k, m, firstLine(r.Err.Error())))
+				errOwner = append(errOwner, owner)
 			}
 			n := 0
 			for _, ob := range r.Obls {
@@ -210,10 +230,12 @@ func runCheck(o checkOpts) *checkResult {
 					continue
 				}
 				if oblCounts(ob, o.prop) {
+					ob.Owner = owner
 					allObls = append(allObls, ob)
 					n++
 				}
 			}
+			ownerOf[owner] = ownerRec{k, fc, m}
 			reachObls = append(reachObls, r.ReachChecks...)
 			if o.tier == "thorough" || os.Getenv("GOVC_BLOCKREACH") != "" {
 				blockObls = append(blockObls, r.BlockReach...)
@@ -249,6 +271,76 @@ func runCheck(o checkOpts) *checkResult {
 		allObls = append(allObls, l)
 	}
 	allObls = append(allObls, w.structureObls(o.prop)...)
+	if len(allObls) == 0 {
+		res.broken = append(res.broken, "no obligations generated for "+o.prop)
+	}
+	solveT0 := time.Now()
+	discharge(allObls, cfg)
+	// Fallback for refactorings that move clause-carrying code into a helper
+	// without a contract: a function that does not verify under per-function
+	// numbering of program points is tried once more with the points of its
+	// inlined helpers numbered in place (exec.go, applyVirtualNumbering).  Its
+	// result is used only if everything is then discharged.
+	{
+		bad := map[string]bool{}
+		for _, ob := range allObls {
+			if ob.Status != "unsat" && ob.Owner != "" {
+				bad[ob.Owner] = true
+			}
+		}
+		for _, ow := range errOwner {
+			bad[ow] = true
+		}
+		for ow := range bad {
+			rec, ok := ownerOf[ow]
+			if !ok || !w.hasInlinedHelpers(rec.key) {
+				continue
+			}
+			w.virtual = true
+			r := w.verifyFunction(rec.key, rec.fc, rec.mode)
+			w.virtual = false
+			if r.Err != nil {
+				continue
+			}
+			var vobls []*Obligation
+			for _, ob := range r.Obls {
+				if onlyLabelled[rec.key] && ob.Label == "" {
+					continue
+				}
+				if oblCounts(ob, o.prop) {
+					ob.Owner = ow
+					vobls = append(vobls, ob)
+				}
+			}
+			settledByFunc.Delete(rec.key) // the second attempt gets the long retry again
+			discharge(vobls, cfg)
+			allOK := len(vobls) > 0
+			for _, ob := range vobls {
+				if ob.Status != "unsat" {
+					allOK = false
+				}
+			}
+			if !allOK {
+				continue
+			}
+			var kept []*Obligation
+			for _, ob := range allObls {
+				if ob.Owner != ow {
+					kept = append(kept, ob)
+				}
+			}
+			allObls = append(kept, vobls...)
+			var kerrs, kown []string
+			for i, er := range errs {
+				if errOwner[i] != ow {
+					kerrs = append(kerrs, er)
+					kown = append(kown, errOwner[i])
+				}
+			}
+			errs, errOwner = kerrs, kown
+			warns = appendUniq(warns, ow+": verified with the program points of its inlined helpers numbered in place (a helper without a contract carries clauses of this function)")
+		}
+	}
 	// A contract that no longer fits the code (unknown identifier, changed
 	// signature, vanished program point) means obligations that were
 	// discharged on the unchanged tree cannot even be generated any more:
@@ -265,11 +357,6 @@ func runCheck(o checkOpts) *checkResult {
 		_ = os.WriteFile(path, append(data, '\n'), 0o644)
 		res.violations = append(res.violations, fmt.Sprintf("VIOLATION property=%s replay=%s obligation=contract-mismatch:%s no-failing-input-found", o.prop, path, sanitizeFile(firstLine(er))))
 	}
-	if len(allObls) == 0 {
-		res.broken = append(res.broken, "no obligations generated for "+o.prop)
-	}
-	solveT0 := time.Now()
-	discharge(allObls, cfg)
 	// vacuity guards: returns must be reachable under the assumed contracts
 	rcfg := cfg
 	rcfg.retryS = 0
